@@ -36,6 +36,7 @@ def required_cells(tier):
     for fam in ("tetrahedron", "hexahedron", "pyramid", "prism"):
         req["body:" + fam] = 20 if q else 300
     req["kind:PH"] = 200 if q else 5000
+    req["pose:via-move"] = 150 if q else 4000
     req["perm:exhaustive-polygon"] = 100
     req["orient:exhaustive-polyhedron"] = 100
     return req
@@ -53,7 +54,7 @@ def cases(rng, budget, widx, nworkers, tier):
             d = gen.rand_flat(rng, "S")
             if nt == "int" and not _integral(d):
                 nt = "float"
-            yield {"k": "S", "d": d, "nt": nt}
+            yield _with_move({"k": "S", "d": d, "nt": nt}, rng)
         elif r < 0.45:
             d = gen.rand_obj(rng, "PG")
             if nt == "int" and not _integral(d):
@@ -67,7 +68,7 @@ def cases(rng, budget, widx, nworkers, tier):
                 for _ in range(4):
                     p = list(range(m))
                     rng.shuffle(p)
-                    yield {"k": "PG", "d": d, "nt": nt, "order": p}
+                    yield _with_move({"k": "PG", "d": d, "nt": nt, "order": p}, rng)
         elif r < 0.7:
             d = gen.rand_obj(rng, "PG")
             n = K.polygon_normal(d[1])
@@ -93,7 +94,22 @@ def cases(rng, budget, widx, nworkers, tier):
                 for _ in range(3):
                     fo = list(range(nf))
                     rng.shuffle(fo)
-                    yield {"k": "PH", "d": d, "nt": nt, "forder": fo, "flips": rng.getrandbits(nf), "rots": [rng.randrange(6) for _ in range(nf)]}
+                    yield _with_move({"k": "PH", "d": d, "nt": nt, "forder": fo, "flips": rng.getrandbits(nf), "rots": [rng.randrange(6) for _ in range(nf)]}, rng)
+
+
+def _with_move(case, rng):
+    """the same body reached by building it elsewhere and moving it into place (receiver or return value measured)"""
+    if rng.random() < 0.15:
+        case["mv"] = {"v": [rng.randint(-8, 8) for _ in range(3)], "use": rng.choice(("receiver", "returned"))}
+    return case
+
+
+def _moved(G, build, mv, nt):
+    """build(shift) -> object constructed at position - v; moved by v"""
+    v = tuple(F(c) for c in mv["v"])
+    o = build(K.mul(v, -1))
+    ret = o.move(G.Vector(*[num(c, nt) for c in v]))
+    return o if mv["use"] == "receiver" else ret
 
 
 def build_polygon(G, vs, order, nt):
@@ -131,7 +147,12 @@ def judge(case):
     mu.cell("nt:" + case["nt"])
     if k == "S":
         mu.cell("kind:S")
-        s = G.Segment(G.Point(*[num(c, nt) for c in d[1]]), G.Point(*[num(c, nt) for c in d[2]]))
+        mk = lambda sh=(0, 0, 0): G.Segment(G.Point(*[num(c, nt) for c in K.add(d[1], sh)]), G.Point(*[num(c, nt) for c in K.add(d[2], sh)]))
+        if case.get("mv"):
+            mu.cell("pose:via-move")
+            s = _moved(G, mk, case["mv"], nt)
+        else:
+            s = mk()
         res, exc, imp = M.call(lambda o: o.length(), s)
         if exc:
             mu.fail("Segment.length:raises-" + M.classify_exc(exc), "Segment.length raised %r" % exc)
@@ -144,7 +165,11 @@ def judge(case):
         mu.cell("kind:PG/%d" % len(vs))
         if case.get("exh"):
             mu.cell("perm:exhaustive-polygon")
-        pg = build_polygon(G, vs, order, nt)
+        if case.get("mv") and k == "PG":
+            mu.cell("pose:via-move")
+            pg = _moved(G, lambda sh: build_polygon(G, [K.add(v, sh) for v in vs], order, nt), case["mv"], nt)
+        else:
+            pg = build_polygon(G, vs, order, nt)
         area = K.polygon_area(vs)
         if k == "PG":
             for name, want in (("length", K.polygon_perimeter(vs)), ("area", area)):
@@ -174,7 +199,11 @@ def judge(case):
     mu.cell("kind:PH", "body:" + gen.family_of(d))
     if case.get("exh"):
         mu.cell("orient:exhaustive-polyhedron")
-    ph = build_polyhedron(G, d[2], case["forder"], case["flips"], case["rots"], nt)
+    if case.get("mv"):
+        mu.cell("pose:via-move")
+        ph = _moved(G, lambda sh: build_polyhedron(G, [[K.add(v, sh) for v in f] for f in d[2]], case["forder"], case["flips"], case["rots"], nt), case["mv"], nt)
+    else:
+        ph = build_polyhedron(G, d[2], case["forder"], case["flips"], case["rots"], nt)
     want = {"length": K.polyhedron_length(d), "area": K.polyhedron_area(d), "volume": float(K.polyhedron_volume(d))}
     vals = {}
     for name in ("length", "area", "volume"):
